@@ -1,8 +1,15 @@
 """C16 recovery returns exactly the acknowledged persisted state.
 Persist.tla / MC_Persist.tla (Mode "seq") / Persist_Trace.tla, harness bin persist mode=seq."""
-from .persist_common import gen, TRACE, WORKERS, JOBS, corrupt_recover, cap, harness_env
+from .persist_common import gen as gen1, TRACE, WORKERS, JOBS, corrupt_recover, cap, harness_env, SIBLINGS
 
 INVS = "Atomic QuiescentStorageIsG"
+
+
+def gen(**kw):
+    """calls are for tenant t1; tenants t10 and t1z (neighbours of t1 in key order) hold one node and one relationship
+    each and are recovered after every recovery of t1"""
+    kw.setdefault("tenants", SIBLINGS)
+    return gen1(**kw)
 
 
 def cut_to_last_recover(s):
@@ -46,7 +53,8 @@ def run(ctx):
     for s in ctx.rng.sample(inside, min(len(inside), 10 if q else 60)):
         scripts.append([dict(st, at="random", n=ctx.rng.randrange(0, 60000)) if st.get("op") == "Crash" and st.get("at") != "idle" else st
                         for st in s])
-    ctx.assume("one tenant; node ids {1,2}, one relationship id; property maps are {} or {k: v}; an update carries the full map "
+    ctx.assume("calls for one tenant (t1) next to two registered tenants (t10, t1z) that hold one node and one relationship each and "
+               "are recovered after every recovery of t1; node ids {1,2}, one relationship id; property maps are {} or {k: v}; an update carries the full map "
                "{k: v}, so replace- and merge-semantics of an update coincide",
                "not generated because the statement leaves their effect open: creating an id that currently exists, deleting a node "
                "that still has relationships",
